@@ -131,6 +131,9 @@ class C05(Prop):
                         pm = rng.choice(["fetch", "getnext"])
                     pre.append({"id": 100 + j, "s": ps, "op": "walk", "method": pm, "oid": rng.choice([gen.oid_text(base), "1.3.6.1", "1.3"]), "limit": rng.choice([1, 2, 3])})
                 ops = pre + [op]
+                if rng.random() < 0.35:
+                    pmeth = rng.choice(["getnext", "getbulk"]) if ver != "v1" else "getnext"
+                    op["partner"] = {"method": pmeth, "oid": rng.choice([gen.oid_text(base), "1.3.6.1", "1.3", gen.oid_text(base[:-1]) if len(base) > 2 else "1.3"]), "max_rep": rng.choice([1, 3, 20])}
             variants.append({"flavour": fl, "sessions": sessions, "ops": ops})
         scripts = {}
         if family == "benign-faults":
